@@ -195,6 +195,7 @@ func runC13(c *Ctx) {
 	c.rule(P, "consume", "padding consumed is computed from the same decoded length as the body", 3)
 	c.rule(P, "record", "ReadRecord: size test on the returned buffer's own length; no Reset in the fragment loop; completes only on a last-fragment header", 3)
 	c.rule(P, "write-record", "WriteRecord: last-fragment bit exactly on the exhausting fragment and for empty data", 2)
+	runFullReadAs(c, P)
 	runAllocRule(c, P, nil)
 
 	// byteReader.readString bound (no make, slices the body)
@@ -445,8 +446,19 @@ func runRecordRulesAs(c *Ctx, P string) {
 	// constant header for empty data (uint32(0) | flag folds to a constant)
 	if !emptyOK {
 		for _, call := range calls(wr) {
-			if isCallTo(call, "encoding/binary.Write") && !inCycle(call.Block()) {
-				if k, isC := constInt(call.Common().Args[2]); isC && uint32(k) == 0x80000000 {
+			if inCycle(call.Block()) {
+				continue
+			}
+			// binary.Write(w, order, 0x80000000), PutUint32(hdr, 0x80000000), ... on the len(data)==0 edge
+			onEmpty := false
+			for _, f := range p.facts(call.Block()) {
+				op, l, r, ok := normCmp(f)
+				if ok && op == "==" && (isLenOfParam(l, wr) || isLenOfParam(r, wr)) {
+					onEmpty = true
+				}
+			}
+			for _, a := range call.Common().Args {
+				if k, isC := constInt(unwrap(a)); isC && uint32(k) == 0x80000000 && (onEmpty || isCallTo(call, "encoding/binary.Write")) {
 					emptyOK = true
 				}
 			}
@@ -497,13 +509,14 @@ func runC15(c *Ctx) {
 	c.rule(P, "once-in-order", "connection loop: at most one WriteReply per ReadCall on any path; no `go` in the loop body; reply derives from this iteration's call", 3)
 	c.rule(P, "close-on-garbage", "ReadCall/HandleCall error edges reach the function exit (deferred conn.Close) without re-entering the loop", 3)
 	c.rule(P, "recover", "the per-connection goroutine defers a recover before serving", 1)
-	c.rule(P, "hazards", "explicit panic hazards (panic calls, single-result type assertions) reachable from goroutines without recover are in the reviewed table", 3)
+	c.rule(P, "hazards", "explicit panic hazards (panic calls, single-result type assertions) reachable from goroutines without recover are in the reviewed table", 1)
 	runAllocRule(c, P, nil)
 	c.rule(P, "record", "ReadRecord: size test on the returned buffer's own length; no Reset in the fragment loop; completes only on a last-fragment header (shared with C13)", 3)
 	savedOnly := c.Only
 	c.Only = map[string]bool{"record": true}
 	runRecordRulesAs(c, P)
 	c.Only = savedOnly
+	runFullReadAs(c, P)
 
 	ent, err := p.entrySet()
 	if err != nil {
